@@ -92,6 +92,58 @@ TECHNIQUE = {
     "C40": "offset provenance from get_instructions_idx, unit typing (code units vs bytes), sibling agreement of payload address computations",
 }
 
+# ---- rules rebuilt in the false-alarm hardening round (DESIGN section 10/12): texts written after the rebuild ---------
+_XREF_NOTE = ("Trusted: CPython ast; the abstract interpreter (agstatic/absint.py) in strict mode and the model objects of agstatic/xref_model.py "
+              "(model DEX/ClassManager/EncodedMethod/Instruction with the getters the analysis calls); spec/dalvik.py for the opcode classes. "
+              "Decided on finite scenario families (every opcode value, invoke/field/class-usage/string variants, repeats, two DEX layouts in both add orders), "
+              "not on arbitrary programs. Listed known findings (array classes, field recorded on the accessing class, per-DEX field lookup) stay reported as KNOWN-FINDING.")
+claim("C13", "abstract execution of Analysis.__init__/add/create_xref on model DEX objects; full xref state compared with the prescribed state",
+      "Analysis.__init__, add, create_xref and everything they call are executed by the abstract interpreter on small model DEX objects whose instructions have a concrete opcode, "
+      "a reference index and an offset that is a prefix sum of symbolic lengths. Afterwards every public xref getter and get_call_graph are evaluated and the complete set of "
+      "records (callee, caller, offset, internal/external stub identity, call-graph edges) is compared with the set the property prescribes, computed independently from spec/dalvik.py.",
+      _XREF_NOTE)
+claim("C14", "abstract execution of create_xref on model DEX objects; field read/write records and FieldAnalysis identity compared with the prescribed state",
+      "Same executor as C13 on the field scenario families (own class, other class, undefined field, two DEX files in both add orders): the FieldAnalysis returned by "
+      "Analysis.get_field_analysis must list every accessing method and offset as read or write, the accessing method must list the field, and each defined field must have exactly one FieldAnalysis.",
+      _XREF_NOTE)
+claim("C15", "abstract execution of create_xref on model DEX objects; string and class-usage records compared with the prescribed state",
+      "Same executor as C13 on the const-string/jumbo, new-instance and const-class scenario families (internal, external, array and rank-2 array types, the empty string, a string equal to a class name, "
+      "repeats at several offsets): every instruction must appear with method and offset in exactly the lists the property names and nothing else may appear there.",
+      _XREF_NOTE)
+claim("C16", "abstract execution of two split layouts and the single-DEX layout of the same model classes; complete analysis states compared",
+      "Two mutually dependent model classes are analysed as one DEX and split over two DEX files in both add orders, with colliding per-DEX indices; classes, methods, fields, strings and all "
+      "cross-references of the three runs must be the same state.",
+      _XREF_NOTE)
+claim("C40", "offset provenance as linear forms through the abstract execution of the disassembler, the basic-block builder and create_xref",
+      "Offsets are prefix sums of symbolic instruction lengths: the offset every xref record carries, DCode.get_ins_off/off_to_pos, the block start/end, get_special_ins keys and the payload "
+      "addresses (in bytes vs code units) computed by push/determineNext must be the same linear form as the disassembler's accumulation on the model methods (incl. fill-array-data and switch payloads).",
+      "Trusted: CPython ast; agstatic/absint.py linear forms; agstatic/xref_model.py and flowmodel model methods; spec/dalvik.py instruction lengths. Decided on model methods of a few instructions with symbolic lengths.")
+claim("C29", "abstract execution of ResourceResolver on abstract resource tables with cycles (CPython recursion limit emulated)",
+      "ResourceResolver.resolve and the put_* helpers are executed (agstatic/minipy.py) on 17 abstract tables built from the repository's own entry classes: chains, self references, rings, "
+      "two-configuration cycles, cycles through complex entries. Decided: the call terminates without RecursionError, returns the values reachable without re-entering a resource, and a second resolve "
+      "on the same resolver returns the same values.",
+      "Trusted: CPython ast; the mini interpreter agstatic/minipy.py (symbolic library terms, choice points on comparisons) and its 1000-frame recursion model. Finite table families, not arbitrary tables.")
+claim("C32", "abstract execution of the v1 verification path over all attribute / SDK / certificate cases, each run twice with different .SF bytes",
+      "verify_signer_info_against_sig_file, verify_signature and get_certificate_der with their callers are executed with library objects as symbolic terms and library calls as ordered events. "
+      "Every path that returns a certificate must show a successful public-key verify made by that call with the right key, signature and bytes, and with signed attributes an equal digest comparison over exactly the .SF bytes; "
+      "a second call with different .SF bytes must verify again.",
+      "Trusted: CPython ast; agstatic/minipy.py; `cryptography` verify raises InvalidSignature unless the signature is valid; asn1crypto accessors return what was parsed.")
+claim("C36", "abstract execution of Session.__init__ with the dataset library as symbolic terms; provenance classification of the session id",
+      "Session.__init__ (helpers followed) is executed with `dataset` calls as ordered events: the primary key of the inserted session row and Session.session_id must be the same term, "
+      "and that term must be the database-allocated key of the insert, not a value derived from an earlier unsynchronised read of the table (count/len/max) or any other non-unique source.",
+      "Trusted: CPython ast; agstatic/minipy.py; dataset.Table.insert returns the primary key the database allocated (AUTOINCREMENT under the database's own locking). "
+      "Not decided: database-level configuration such as busy timeouts (seed C36_B).")
+claim("C33", "abstract execution of the APK signing-block parsers and getters on generated model files, results compared with what was encoded",
+      "The APK object is built through its real constructor on model files generated from the public APK Signing Block layout (317 pair encodings over 85 id sequences incl. empty values; files without block, wrong magic, "
+      "mismatching sizes; 255 signer cases). parse_v2_v3_signature, the parse_v2/v3/v3.1 functions, is_signed_vX and the key/certificate getters are each executed as a whole: flags equal id membership, duplicates are detected, "
+      "the first block of the requested scheme is used, getters return exactly the encoded keys/certificates and signer fields, every digest/signature item of a list is parsed (item-list clause).",
+      "Trusted: CPython ast; agstatic/modeleval.py and agstatic/absint.py; models of hashlib, apkInspector ZipEntry.parse, io.BytesIO, struct.unpack; the block/signer layouts transcribed from the public specification.")
+claim("C25", "abstract execution of short_circuit_struct on model graphs; printed condition evaluated on every truth assignment and compared with the branches",
+      "The whole short_circuit_struct is executed with the real Graph/Condition/ShortCircuitBlock classes on all two-node and three-node chain configurations (nesting position x and/or x negation at both levels); "
+      "the merged condition is printed through the interpreted Writer, parsed, and evaluated with Java short-circuit rules on every truth assignment: it must select the successor and evaluate exactly the leaf conditions "
+      "the original branches do; neg() must print the complement, CONDS must be the complement table, the Writer keeps neg() and the true/false swap paired.",
+      "Trusted: CPython ast; agstatic/modeleval.py; the Java operator semantics in the rule. Chains of at most three conditions.")
+
 # properties whose builder-written rule has been reviewed, is silent on the unchanged tree and passes its self-test
 INTEGRATED = ["C21", "C24", "C09", "C32", "C29", "C36", "C12", "C39", "C33", "C13", "C14", "C15", "C16", "C40",
               "C34", "C38", "C37", "C05", "C07", "C17", "C22", "C08", "C10", "C11", "C25", "C35"]
